@@ -64,6 +64,13 @@ impl Vm {
     self.gc.replace(gc);
 
     result.map(|fun| {
+      #[cfg(feature = "verif")]
+      crate::verif::note_compiled(
+        &fun,
+        cache_id_emitter.property_count(),
+        cache_id_emitter.invoke_count(),
+      );
+
       let cache = InlineCache::new(
         cache_id_emitter.property_count(),
         cache_id_emitter.invoke_count(),
